@@ -32,7 +32,7 @@ var (
 	// https://www.fastly.com/documentation/reference/vcl/variables/rate-limiting/ratecounter-bucket-10s/
 	rateCounterRegex = regexp.MustCompile(`ratecounter\.([^\.]+)\.(bucket|rate)\.([^\.]+)`)
 	// https://www.fastly.com/documentation/reference/vcl/variables/miscellaneous/re-group/
-	regexMatchedRegex = regexp.MustCompile(`re\.group\.([0-9]+)`)
+	regexMatchedRegex = regexp.MustCompile(`^re\.group\.([0-9]+)$`)
 	// https://www.fastly.com/documentation/reference/vcl/variables/backend-connection/backend-connections-open/
 	backendConnectionsOpenRegex = regexp.MustCompile(`backend\.([^\.]+)\.connections_open`)
 	// https://www.fastly.com/documentation/reference/vcl/variables/backend-connection/backend-connections-used/
